@@ -138,6 +138,33 @@ def run_symmetry(sd):
     return res
 
 
+def _twin_term(rng, T):
+    """Product of two copies of one tensor with the targets i,a / j,b distributed over
+    the copies (optionally sharing contracted indices, optionally times a third tensor):
+    a term that is itself invariant under P_ij P_ab, so that two different reported
+    permutations map it onto the same partner term."""
+    from adcgen.indices import get_symbols
+    from adcgen.sympy_objects import AntiSymmetricTensor, NonSymmetricTensor, Amplitude
+    i, j, a, b = T
+    kind = rng.choice(["Y1", "c2", "b3", "W", "f"])
+    k, c = get_symbols("kc")
+    if kind == "Y1":
+        t = Amplitude("Y", (a,), (i,)) * Amplitude("Y", (b,), (j,))
+    elif kind == "c2":
+        t = NonSymmetricTensor("c", (i, a)) * NonSymmetricTensor("c", (j, b))
+    elif kind == "b3":
+        x = rng.choice([k, c])
+        t = NonSymmetricTensor("b", (i, x, a)) * NonSymmetricTensor("b", (j, x, b))
+    elif kind == "W":
+        t = AntiSymmetricTensor("V", (i, k), (a, c)) * AntiSymmetricTensor("V", (j, k), (b, c))
+    else:
+        t = AntiSymmetricTensor("f", (i,), (a,)) * AntiSymmetricTensor("f", (j,), (b,))
+    if rng.random() < 0.3:
+        l, d = get_symbols("ld")
+        t *= Amplitude("t2", (d,), (l,)) * NonSymmetricTensor("c", (l, d))
+    return rng.choice([1, -1, 2, Rational(1, 2)]) * t
+
+
 def run_exploit(sd):
     rng = random.Random(sd)
     from adcgen import Expr
@@ -150,8 +177,9 @@ def run_exploit(sd):
     denom = rng.random() < 0.2
     g = TermGen(rng, spaces="ov", n_tensors=(2, 3), max_contracted=4,
                 names=["V", "f", "t1", "t2", "Y", "d0", "c"] + (["D"] if denom else []), exclude=())
+    twin = len(names) == 4 and names != "ijk" and rng.random() < 0.35
     try:
-        t0 = g.term_with_target(T)
+        t0 = _twin_term(rng, T) if twin else g.term_with_target(T)
     except RuntimeError:
         return {"status": "skipped", "item": sd}
     # symmetrise over a random subgroup generated by 1-2 transpositions within spaces
